@@ -223,5 +223,26 @@ EXTRA = {
  'C19': 'Also decided: every read_chunk(p,n) of the 30 trivially-copyable loaders writes inside the object p points to (vectors scaled by element size); each rejection of next_chunk_size is infeasible when a complete chunk remains, so archives ending in an empty chunk load.',
  'C20': 'Also decided: every scan over mount points in applications_pool is first-hit (a later match never replaces the selection).',
 }
+EXTRA2 = {
+ 'C01': 'Embedded HTTP server (no pinned test covers it): the request line is split at its two spaces; Content-Length / Content-Type are kept (also in the typed fields), other headers become HTTP_<NAME>; every parser outcome is followed up; read-ahead body bytes are handed out first, once, in order; the URI is split at "?", the script name is cut only on a whole-component match (and always then), PATH_INFO is the decoded rest; a header line maps to (NAME, value) exactly (abstract interpretation over all byte values for lines with free bytes in the name, around the colon and in folded white space).',
+ 'C03': 'HTTP framing decisions: the bytes of every write are in what is sent (plain or chunk-framed), a computed Content-Length is the size of the single complete write, keep-alive only when the body end is recognisable, chunking exactly when kept alive without a length, header block closed by an empty line.',
+ 'C04': 'Tokeniser: per turn of the main loop exactly one entry from the old to the new cursor (path engine, any input length); plain text never opens on or runs over < > &; tag / entity / comment entries only after their delimiter; entry shapes and the attribute-value language exact for all short inputs (abstract interpretation).',
+ 'C05': 'The value compared with the transmitted MAC is the HMAC just read out from the object that was fed the message; size - digest_size only after the length test; CBC output buffers hold what is written.',
+ 'C06': 'The session blob writer and reader agree field by field (header, key, value offsets and lengths symbolic; lengths that do not fit their bit field are refused).',
+ 'C07': 'The value stored is the value supplied and the one fetched; the iterator linked into lru / timeout / triggers is the inserted one; add_trigger registers entry and back reference; rise / remove delete every selected entry.',
+ 'C10': 'Wire format end to end (store frame and data reply: lengths, slices, NUL-separated names; operations reach the cache); the client verdict follows the reply opcode.',
+ 'C11': 'Object keys are compared over their whole length (no NUL-terminated primitive reachable from string_key comparison).',
+ 'C12': 'The in-memory field limit handed to size_ok is content_length_limit().',
+ 'C13': 'normalize_path never yields a climbing path for any input up to 6 (8 thorough) bytes (abstract interpretation by byte class); an alias applies only on a whole-component prefix, at most once, with the target of the tested alias; the unchecked branch returns root + path minus one trailing separator.',
+ 'C14': 'Form text widgets validate the whole value, mark invalid text, and compare both limits with the code-point count.',
+ 'C15': 'Buffered filterbuf keeps byte order; base64url range drivers hand every block to the block codec at matching offsets into an exactly sized buffer for lengths 0..40; urldecode continues exactly behind each unit.',
+ 'C16': 'md5_process reads the block it is handed.',
+ 'C17': 'The recorded event set of a descriptor is the one the reactor was armed with.',
+ 'C18': 'read_all / write_all transfer exactly n bytes or fail and terminate (end of file fails instead of spinning); success hands out the verified bytes (empty only for stored size 0); in cross-process mode a descriptor is kept only under an exclusive fcntl lock on the file the name still refers to.',
+ 'C19': 'Reader cursor arithmetic (length word at the cursor, payload 4 bytes behind it, advance 4 + payload); str / mode / reset / assignment install the state; container loaders append in archive order.',
+ 'C20': 'A method filter is classified by scanning all of it; keyword defaults are kept only in the root-most mapper.',
+}
 for _pid, _t in EXTRA.items():
+    CLAIMS[_pid]['text'] += ' ' + _t
+for _pid, _t in EXTRA2.items():
     CLAIMS[_pid]['text'] += ' ' + _t
